@@ -12,6 +12,7 @@ package c12
 import (
 	"crypto/tls"
 	"fmt"
+	"io"
 	"net"
 	"os"
 	"strings"
@@ -26,7 +27,7 @@ import (
 
 func TestMain(m *testing.M) {
 	stats.Init("C12")
-	stats.Rule("scenario in {tls-no-config, tls-no-cert, addr-in-use, listen-twice, dial-refused, bad-address, bad-scheme, handshake-garbage, handshake-truncated, hook-reject-listener, hook-reject-dialer, proto-reject, lost-after-attach, recv-timeout, send-timeout, no-peers, proto-state, closed-listener, closed-dialer} x applicable transports x 3-8 generated follow-up calls (GetOption/SetOption good+bad/Address/Listen/Dial/Send/Recv with deadlines/Close of siblings) x correct-and-retry. Also: address-in-use with the loser closed instead of retried; protocol refusal on the dialer side. Non-trivial: the error actually occurred and >=1 follow-up addressed the same object; distinct by (scenario, transport, follow-up sequence)")
+	stats.Rule("scenario in {handshake-fails-dialer, tls-no-config, tls-no-cert, addr-in-use, listen-twice, dial-refused, bad-address, bad-scheme, handshake-garbage, handshake-truncated, hook-reject-listener, hook-reject-dialer, proto-reject, lost-after-attach, recv-timeout, send-timeout, no-peers, proto-state, closed-listener, closed-dialer} x applicable transports x 3-8 generated follow-up calls (GetOption/SetOption good+bad/Address/Listen/Dial/Send/Recv with deadlines/Close of siblings) x correct-and-retry. Also: address-in-use with the loser closed instead of retried; protocol refusal on the dialer side. Non-trivial: the error actually occurred and >=1 follow-up addressed the same object; distinct by (scenario, transport, follow-up sequence)")
 	stats.Assume("every follow-up must return within 2 s (the documented blockers are only issued with deadlines); this reaches the error paths in the catalogue, not every lock-to-return path")
 	rc := m.Run()
 	stats.Flush()
@@ -184,7 +185,7 @@ func rawAddr(addr string) (string, string) {
 
 func TestC12(t *testing.T) {
 	scenarios := []string{"tls-no-config", "tls-no-cert", "addr-in-use", "listen-twice", "dial-refused", "bad-address", "bad-scheme",
-		"handshake-garbage", "handshake-truncated", "hook-reject-listener", "hook-reject-dialer", "proto-reject", "proto-reject-dialer", "lost-after-attach",
+		"handshake-garbage", "handshake-truncated", "handshake-fails-dialer", "hook-reject-listener", "hook-reject-dialer", "proto-reject", "proto-reject-dialer", "lost-after-attach",
 		"recv-timeout", "send-timeout", "no-peers", "proto-state", "closed-listener", "closed-dialer"}
 	rapid.Check(t, func(t *rapid.T) {
 		sc := rapid.SampledFrom(scenarios).Draw(t, "scenario")
@@ -196,6 +197,8 @@ func TestC12(t *testing.T) {
 			tr = "tls+tcp" // the only transport that documents a no-certificate error
 		case "handshake-garbage", "handshake-truncated":
 			tr = rapid.SampledFrom(streamTr).Draw(t, "transport")
+		case "handshake-fails-dialer":
+			tr = rapid.SampledFrom([]string{"tcp", "ipc"}).Draw(t, "transport")
 		case "addr-in-use":
 			tr = rapid.SampledFrom([]string{"tcp", "ipc", "inproc", "ws", "tls+tcp"}).Draw(t, "transport")
 		default:
@@ -396,6 +399,63 @@ func TestC12(t *testing.T) {
 				e.fail("retry:"+sc, "after %d failed handshakes a well-behaved peer cannot connect: %v", nbad, err)
 			}
 			e.roundTrip(peer, S, "after failed handshakes on the listener")
+		case "handshake-fails-dialer":
+			// the dialer reaches something that is not (yet) a well-behaved SP peer: it answers with
+			// garbage, hangs up after reading our header, or hangs up at once; then a real listener
+			// takes the address and the same dialer must get through
+			nw, a := rawAddr(addr)
+			ln, err := net.Listen(nw, a)
+			if err != nil {
+				t.Skip("port busy")
+			}
+			d, err := S.NewDialer(addr, asyncOpts())
+			if err != nil {
+				_ = ln.Close()
+				t.Fatalf("harness: %v", err)
+			}
+			if err, _ := e.call("dialer.Dial() [asynchronous]", d.Dial); err != nil {
+				_ = ln.Close()
+				e.fail("dial:"+sc, "asynchronous Dial: %v", err)
+				break
+			}
+			nbad := rapid.IntRange(1, 4).Draw(t, "nbad")
+			for i := 0; i < nbad; i++ {
+				if dl, ok := ln.(interface{ SetDeadline(time.Time) error }); ok {
+					_ = dl.SetDeadline(time.Now().Add(3 * time.Second))
+				}
+				c, err := ln.Accept()
+				if err != nil {
+					_ = ln.Close()
+					e.fail("no-redial:"+sc, "after %d failed handshakes the dialer made no further attempt within 3s", i)
+					break
+				}
+				switch rapid.SampledFrom([]string{"garbage", "eof-after-header", "eof-at-once"}).Draw(t, "how") {
+				case "garbage":
+					_, _ = c.Write([]byte{0, 'X', 'P', 0, 9, 9, 0, 0})
+				case "eof-after-header":
+					_ = c.SetReadDeadline(time.Now().Add(time.Second))
+					_, _ = io.ReadFull(c, make([]byte, 8))
+				}
+				_ = c.Close()
+			}
+			_ = ln.Close()
+			if e.bad {
+				break
+			}
+			occurred = true
+			same = e.followUps(S, nil, d)
+			dl := time.Now().Add(2 * time.Second)
+			for {
+				err := peer.ListenOptions(addr, fixture.ListenOpts(tr))
+				if err == nil {
+					break
+				}
+				if time.Now().After(dl) {
+					t.Skip("address not available again")
+				}
+				time.Sleep(5 * time.Millisecond)
+			}
+			e.roundTrip(S, peer, "through the same dialer, after its handshakes had failed and a real listener appeared")
 		case "hook-reject-listener", "hook-reject-dialer", "proto-reject":
 			rejects := rapid.IntRange(1, 3).Draw(t, "rejects")
 			hookSock := S
